@@ -267,6 +267,39 @@ def near_integer_bound_region(cfg, out):
     return False
 
 
+def noise_free(eps, sens):
+    """no noise: sensitivity 0, epsilon inf, or the quotient sensitivity / epsilon UNDERFLOWS to exactly 0.0 (the code's shortcuts test it)"""
+    return sens == 0 or eps == INF or (eps > 0 and sens / eps == 0.0)
+
+
+TINY_SENS = [5e-324, 1e-323, 4e-323, 1e-320, 1e-310, 2.2250738585072014e-308, 1e-305, 1e-300]
+
+
+def gen_underflow_pair(r):
+    """(epsilon, sensitivity) with a subnormal / tiny sensitivity and a moderate-to-huge epsilon: the quotient is exactly 0.0, or the
+    smallest subnormal next to it"""
+    sens = r.choice(TINY_SENS)
+    m = r.u01()
+    if m < 0.5:
+        eps = r.choice([2.0, 10.0, 1e3, 1e5, 1e6, 1e100, 1e200, 1e300]) * (sens / 5e-324)     # quotient underflows to 0.0
+        if not math.isfinite(eps):
+            eps = 1e300
+    elif m < 0.8:
+        eps = sens / 5e-324 * r.choice([1.0, 0.75, 1.25])                                       # quotient = smallest subnormal (or 0)
+    else:
+        eps = r.choice([1.0, 1e-3, 50.0, 1e6])
+    return float(eps), float(sens)
+
+
+def snap_bound_huge(cfg, value=0.0):
+    """Snapping's rescaling to sensitivity 1 overflows: the scaled bound (upper - lower) / 2 / sensitivity, or value / sensitivity or
+    lower / sensitivity, is astronomically large (>= 5e306, or inf)"""
+    if not cfg["sens"] > 0:
+        return False
+    with np.errstate(all="ignore"):
+        return max(abs(float(value)), abs(cfg["lower"]), abs(cfg["upper"]), (cfg["upper"] - cfg["lower"]) / 2.0) / cfg["sens"] >= 5e306
+
+
 def narrow_int_domain(cfg):
     """Python-int bounds closer together than one double spacing at their magnitude: the reflections of LaplaceFolded (double
     arithmetic) can never land inside"""
@@ -345,8 +378,9 @@ def _direct_one(mech, cfg, value, rngspec):
     else:
         if not isinstance(out, numbers.Real):
             return (f"C12:{p}:type", f"{desc} returned {out!r} of type {type(out).__name__}"), out
-        if out != out and mech == "Snapping" and hi - lo >= 1e307:
-            return ("C12:Snapping:huge-finite-width:nan", f"{desc} returned NaN (effective epsilon 0 for a domain width >= 1e307)"), out
+        if out != out and mech == "Snapping" and snap_bound_huge(cfg, value):
+            return ("C12:Snapping:huge-finite-width:nan",
+                    f"{desc} returned NaN (effective epsilon 0: scaled bound (upper-lower)/2/sensitivity >= 5e306)"), out
         if out != out:
             return (f"C12:{p}:nan", f"{desc} returned NaN"), out
     big = cfg.get("dk") == "magnitude"
@@ -359,7 +393,7 @@ def _direct_one(mech, cfg, value, rngspec):
                     f"{desc} returned {out!r} outside [{lo!r}, {hi!r}]"), out
         return (f"C12:{p}:out-of-range", f"{desc} returned {out!r} outside [{lo!r}, {hi!r}] (exact comparison)"), out
     # degenerate parameters: the input itself mapped into the domain
-    if cfg["sens"] == 0 or cfg["eps"] == INF:
+    if noise_free(cfg["eps"], cfg["sens"]) and cfg.get("delta", 0.0) == 0:
         value_, lo_, hi_ = pynum(value), pynum(lo), pynum(hi)
         float_typed = any(isinstance(x, float) and math.isfinite(x) for x in (lo_, hi_))
         if mech in ("LaplaceFolded", "GeometricFolded"):
@@ -1090,6 +1124,14 @@ def s_bounded(ctx):
     cases += [("GeometricFolded", {"eps": 1.0, "sens": 0, "lower": 0.7 - 0.2, "upper": 10.5, "dk": "nearhalf"}, 0, {"seed": 0}),
               ("GeometricFolded", {"eps": INF, "sens": 1, "lower": -10.5, "upper": -(0.7 - 0.2), "dk": "nearhalf"}, 0, {"seed": 0}),
               ("GeometricFolded", {"eps": 1.0, "sens": 1, "lower": 0.7 - 0.2, "upper": 10.5, "dk": "nearhalf"}, 1, {"uniforms": [0.2, 0.3]})]
+    for _ in range(ctx.budget(1200, 50000) // 3):
+        mech = rm.choice(REAL_MECHS)
+        cfg = gen_real_cfg(rm, mech)
+        _, value = gen_real_value(rm, cfg)
+        cfg["eps"], cfg["sens"] = gen_underflow_pair(rm)
+        cfg["delta"] = 0.0
+        cfg["dk"] = "underflow-" + cfg["dk"]
+        cases.append((mech, cfg, value, {"seed": rm.randint(0, 2 ** 31 - 2)}))
     rl = ctx.fork("landing")
     for _ in range(n // 2):
         c = gen_landing(rl)
@@ -1131,6 +1173,39 @@ def s_bounded(ctx):
         ctx.count(k_, n_)
     INFO.clear()
     ctx.sample({"direct_case": {"mech": cases[20][0], "cfg": cases[20][1], "value": cases[20][2], "rng": cases[20][3]}})
+
+
+def s_collapse(ctx):
+    """a RE-USED LaplaceBoundedDomain: randomise once (the scale gets cached), collapse the bounds to a single point (a valid
+    configuration), randomise again: it must return that point instead of sampling for ever"""
+    r = ctx.fork("collapse")
+    hangs = 0
+    for i in range(ctx.budget(12, 200)):
+        lo = 0.0 if i == 0 else r.choice([0.0, -1.3, 10.0, r.uniform(-100, 100)])
+        w = 1.0 if i == 0 else r.choice([1.0, 1e-3, 50.0, r.loguniform(1e-3, 1e3)])
+        eps, sens = (1.0, 1.0) if i == 0 else (r.choice([1.0, 0.1, 5.0]), r.choice([1.0, 0.3, w]))
+        point = r.choice([lo, lo + w, lo + w / 2])
+        seed = r.randint(0, 2 ** 31 - 2)
+        if hangs >= 2:
+            break
+
+        def call():
+            m = MECH.LaplaceBoundedDomain(epsilon=eps, sensitivity=sens, lower=lo, upper=lo + w, random_state=seed)
+            m.randomise(lo + w / 3)
+            m.lower = m.upper = point
+            return m.randomise(lo + w / 3)
+        kind, out = run_timed(call, 2.0)
+        desc = (f"LaplaceBoundedDomain(epsilon={eps!r}, sensitivity={sens!r}, lower={lo!r}, upper={lo + w!r}, random_state={seed}): randomise({lo + w / 3!r}); "
+                f"then lower = upper = {point!r}; randomise({lo + w / 3!r})")
+        data = {"kind": "collapse", "eps": eps, "sens": sens, "lower": lo, "w": w, "point": point, "seed": seed}
+        if kind == "hang":
+            hangs += 1
+            ctx.violation("C12:bounded-domain:hang:after-collapsing-bounds", desc + " did not return within 2 s", data)
+        elif kind != "ok":
+            ctx.violation("C12:bounded-domain:raises:after-collapsing-bounds", desc + f" raised {out!r}", data)
+        elif out != point:
+            ctx.violation("C12:bounded-domain:out-of-range:after-collapsing-bounds", desc + f" returned {out!r}", data)
+        ctx.case(("collapse", point == lo, i))
 
 
 def s_snapping_infinite(ctx):
@@ -1259,9 +1334,12 @@ def multidraw_case(r):
     if m < 0.9:
         return {"mech": "bernoulli_neg_exp", "eps": 1.0, "gamma": r.choice([0, 0.0, 1, 2, 3, 7, 0.5, 1.0, 1e-300, 2.0 ** -53, 700.0, r.uniform(0, 5)]),
                 "seed": seed, "prefix": gen_prefix(r, r.randint(1, 8))}
-    # every other mechanism of the list at huge epsilon
+    # every other mechanism of the list at huge epsilon, or in the underflow region of sensitivity / epsilon
     c = sel_case(r)
     c["eps"] = eps if c["mech"] != "Bingham" or r.chance(0.5) else c["eps"]
+    if c["mech"] in ("Bingham", "Exponential", "PermuteAndFlip") and r.chance(0.6):
+        c["eps"], c["sens"] = gen_underflow_pair(r)
+        c["u"] = None
     return c
 
 
@@ -1346,7 +1424,7 @@ def _sel_expo(case, name, eps, rng, desc):
         ms = case.get("measure") or [1.0] * len(cands)
         if ms[cands.index(out)] == 0:
             return (f"C12:{name}:zero-measure-selected", f"{desc} returned {out!r}, a candidate of measure 0")
-        if eps == INF or case["sens"] == 0:
+        if noise_free(eps, case["sens"]):
             idx = cands.index(out)
             if not np.isclose(case["utility"][idx], max(u for u, m_ in zip(case["utility"], ms) if m_ > 0)):
                 return (f"C12:{name}:degenerate" + ("-u0" if case.get("u") == 0.0 else "-umax" if case.get("u") == ONE_M else ""),
@@ -1400,7 +1478,8 @@ def _sel_rest(case, name, eps, rng, desc):
         S0 = S.copy()
         def call():
             return MECH.Bingham(epsilon=eps, sensitivity=case["sens"], random_state=int(case["seed"])).randomise(S)
-        huge = math.isfinite(eps) and eps >= 1e19
+        # huge finite scale: epsilon / sensitivity >= 1e19 without the quotient sensitivity / epsilon underflowing to 0
+        huge = math.isfinite(eps) and case["sens"] > 0 and not noise_free(eps, case["sens"]) and eps / case["sens"] >= 1e16
         if huge and HANGS.get("Bingham:huge", 0) >= 2 and not case.get("witness"):
             return None                      # the region is known to hang: two observations per run are enough (each costs seconds)
         kind, out = run_timed(call, 3.0 if huge else 20.0)
@@ -1418,7 +1497,7 @@ def _sel_rest(case, name, eps, rng, desc):
         ntol = 1e-6 if case.get("dtype") == "float32" else 1e-9
         if v.shape[0] != S.shape[0] or not abs(float(np.linalg.norm(v)) - 1.0) <= ntol:
             return ("C12:Bingham:not-unit", f"{desc} returned a vector of norm {float(np.linalg.norm(v))!r} / shape {np.shape(out)}")
-        if eps == INF or case["sens"] == 0:
+        if noise_free(eps, case["sens"]):
             w, V = np.linalg.eigh(np.asarray(S, dtype=float))
             if len(w) > 1 and not (np.sort(w)[-1] - np.sort(w)[-2]) > 1e-6 * max(1.0, abs(w).max()):
                 return None                  # (nearly) degenerate top eigenvalue: the top eigenvector is not unique
@@ -1460,6 +1539,10 @@ FIXED_SEL += [
     {"mech": "Bingham", "eps": 1e18, "sens": 1.0, "S": [[2.0, 0.5], [0.5, 1.0]], "seed": 1},
     {"mech": "Bingham", "eps": 1.0, "sens": 1.0, "S": [[2, 1], [1, 3]], "dtype": "int64", "seed": 0},
     {"mech": "Bingham", "eps": 1.0, "sens": 1.0, "S": [[2, 1], [1, 3]], "dtype": "uint8", "layout": "F", "seed": 0},
+    {"mech": "Bingham", "eps": 1e5, "sens": 1e-320, "S": [[2.0, 0.5], [0.5, 1.0]], "seed": 1},
+    {"mech": "Bingham", "eps": 1e200, "sens": 1e-200, "S": [[2.0, 0.5], [0.5, 1.0]], "seed": 1},
+    {"mech": "Bingham", "eps": 1e6, "sens": 5e-324, "S": [[2.0, 0.5], [0.5, 1.0]], "seed": 1},
+    {"mech": "Bingham", "eps": 1.0, "sens": 5e-324, "S": [[2.0, 0.5], [0.5, 1.0]], "seed": 1},
     {"mech": "Binary", "eps": 1000.0, "value": "no", "seed": 0, "u": None},
     {"mech": "Binary", "eps": 1e300, "value": "yes", "seed": 0, "u": 0.5},
 ]
@@ -1502,6 +1585,7 @@ def _check(ctx):
     # direct sweeps first (they do not need Lean), so that a failing input is reported even if the driver is unavailable
     s_bounded(ctx)
     s_snapping_infinite(ctx)
+    s_collapse(ctx)
     s_selection(ctx)
     outs = leanio.run_driver("ClipRange", lines)
     for item, line in zip(todo, outs):
@@ -1582,7 +1666,9 @@ WHAT = {
         "and epsilon = inf return): exp() over/underflows in the acceptance ratio, so the rejection loop never accepts",
     "C12:Bingham:huge-finite-epsilon:raises":
         "Bingham(epsilon=1.7e308, sensitivity=1, random_state=1).randomise([[2, .5], [.5, 1]]) raises LinAlgError('SVD did not converge'): "
-        "epsilon * (lambda_max I - A) / 4 overflows to inf",
+        "epsilon * (lambda_max I - A) / 4 / sensitivity overflows to inf; the same for a tiny sensitivity whose quotient sensitivity/epsilon does not "
+        "underflow to 0: Bingham(epsilon=1.0, sensitivity=5e-324) raises, (1.0, 1e-305) never returns (region: epsilon/sensitivity >= 1e16 "
+        "finite, shortcut `sensitivity / epsilon == 0` not taken)",
 }
 
 
@@ -1590,7 +1676,9 @@ WHAT.update({
     "C12:Snapping:huge-finite-width:nan":
         "Snapping(epsilon=1, sensitivity=1, lower=-8e307, upper=8e307, random_state=0).randomise(0.5) returns nan (also (-4e307, 4e307) and "
         "(0, 1.7e308); (-1e307, 1e307) returns finite values): effective_epsilon() is 0 for such a bound, scale = 1/0 and `value % lambda_` "
-        "is invalid",
+        "is invalid; the same whenever the rescaling to sensitivity 1 overflows ((upper-lower)/2/sensitivity, value/sensitivity or "
+        "lower/sensitivity >= 5e306 or inf), e.g. Snapping(epsilon=1, "
+        "sensitivity=1e-310, lower=0, upper=1).randomise(0.3) returns nan",
     "C12:LaplaceFolded:int-domain-without-doubles:hang":
         "LaplaceFolded(epsilon=5, sensitivity=1, lower=2**63, upper=2**63+1001, random_state=0).randomise(2**53+3) never returns (2 s "
         "observed): the Python-int bounds are closer together than one double spacing (2048 at 2**63), the reflections are computed in "
